@@ -5,6 +5,7 @@ import (
 	"bytes"
 	"context"
 	"fmt"
+	"net/http"
 	"os"
 	"strings"
 
@@ -305,7 +306,7 @@ func main() {
 	o := vgen.ParseFlags()
 	r := vgen.NewRand(o.Seed)
 	w := vgen.NewWriter(o.Out, "C03.Model C03.Spec C03.Proofs C03.Corr", "case", 160)
-	w.Rule = "grammar-based + mutated traceparent/tracestate headers, round trips of span contexts, ParseTraceState inputs, Insert/Delete scripts; " +
+	w.Rule = "grammar-based + mutated traceparent/tracestate headers, round trips of span contexts, ParseTraceState inputs, Insert/Delete scripts, TraceIDFromHex/SpanIDFromHex strings, Get/Len probes; the same headers through http.Header carriers and a composite propagator are compared directly with the MapCarrier result; " +
 		"a case is non-trivial when the implementation accepted the header / parse / edit (so model and spec are exercised beyond the reject path) or rejected a near-valid mutation; distinct = distinct Coq case terms"
 
 	guard := func(desc any, f func()) {
@@ -528,7 +529,129 @@ func main() {
 			w.Add(vgen.App("CEdit", vgen.HxS(start), vgen.HxS(s0), vgen.List(ops), vgen.List(obs)), desc, "edit", okOps > 0)
 		})
 	}
-	_ = bytes.Equal
+	// TraceIDFromHex / SpanIDFromHex
+	nHex := o.Count(300, 6000)
+	for i := 0; i < nHex; i++ {
+		n := vgen.Pick(r, []int{16, 8})
+		h := randHex(r, 2*n)
+		switch r.Intn(12) {
+		case 0:
+			h = strings.Repeat("0", 2*n)
+		case 1:
+			h = strings.ToUpper(h)
+		case 2:
+			h = h[:len(h)-1]
+		case 3:
+			h = h + "0"
+		case 4:
+			h = h[:3] + vgen.Pick(r, []string{"g", "G", "-", " ", "\xc5\xa1"}) + h[4:]
+		case 5:
+			h = strings.Repeat("0", 2*n-1) + "1"
+		case 6:
+			h = mutate(r, h)
+		case 7:
+			b := []byte(h)
+			j := r.Intn(len(b))
+			b[j] = byte('A' + r.Intn(6))
+			h = string(b)
+		}
+		desc := map[string]any{"op": "id-from-hex", "n": n, "hex": h}
+		guard(desc, func() {
+			obs := vgen.None
+			ok := false
+			if n == 16 {
+				if id, err := trace.TraceIDFromHex(h); err == nil {
+					obs, ok = vgen.Some(vgen.Hx(id[:])), true
+					if id.String() != h {
+						w.Violation("TraceIDFromHex accepted a string that is not its own String()", desc)
+					}
+				}
+			} else {
+				if id, err := trace.SpanIDFromHex(h); err == nil {
+					obs, ok = vgen.Some(vgen.Hx(id[:])), true
+					if id.String() != h {
+						w.Violation("SpanIDFromHex accepted a string that is not its own String()", desc)
+					}
+				}
+			}
+			desc["ok"] = ok
+			w.Tally(fmt.Sprintf("hexid:ok=%v", ok))
+			w.Add(vgen.App("CHexId", vgen.Nat(n), vgen.HxS(h), obs), desc, "hexid", true)
+		})
+	}
+
+	// Get / Len against the members
+	nGet := o.Count(200, 4000)
+	for i := 0; i < nGet; i++ {
+		src := strings.Join(validList(r, vgen.Pick(r, []int{0, 1, 2, 5, 31, 32})), ",")
+		desc := map[string]any{"op": "get", "tracestate": src}
+		guard(desc, func() {
+			ts, err := trace.ParseTraceState(src)
+			if err != nil {
+				return
+			}
+			k := vgen.Pick(r, keyPool)
+			if ts.Len() > 0 && r.Chance(3, 4) {
+				idx, n := r.Intn(ts.Len()), 0
+				ts.Walk(func(kk, _ string) bool {
+					if n == idx {
+						k = kk
+						return false
+					}
+					n++
+					return true
+				})
+			}
+			desc["key"] = k
+			w.Add(vgen.App("CGet", vgen.HxS(ts.String()), vgen.HxS(k), vgen.Nat(ts.Len()), vgen.HxS(ts.Get(k))), desc, "get", ts.Len() > 0)
+		})
+	}
+
+	// Carriers and composition: the W3C propagator must behave the same through an http.Header carrier
+	// and inside a composite propagator as it does through a MapCarrier on its own.
+	comp := propagation.NewCompositeTextMapPropagator(propagation.Baggage{}, prop)
+	if f := prop.Fields(); len(f) != 2 || f[0] != "traceparent" || f[1] != "tracestate" {
+		w.Violation(fmt.Sprintf("TraceContext.Fields() = %v", f), nil)
+	}
+	nCar := o.Count(300, 6000)
+	for i := 0; i < nCar; i++ {
+		tp, ts := genTraceParent(r), genTraceState(r)
+		if r.Chance(1, 6) {
+			tp = mutate(r, tp)
+		}
+		desc := map[string]any{"op": "carriers", "traceparent": tp, "tracestate": ts}
+		guard(desc, func() {
+			ref := doExtract(tp, ts)
+			hc := propagation.HeaderCarrier(http.Header{})
+			if tp != "" {
+				hc.Set("traceparent", tp)
+			}
+			if ts != "" {
+				hc.Set("tracestate", ts)
+			}
+			for name, p := range map[string]propagation.TextMapPropagator{"header-carrier": prop, "composite": comp} {
+				ctx := p.Extract(context.Background(), hc)
+				sc := trace.SpanContextFromContext(ctx)
+				got := extObs{Some: sc.IsValid()}
+				if got.Some != ref.Some {
+					w.Violation(name+": acceptance differs from the MapCarrier extraction", desc)
+					continue
+				}
+				if !got.Some {
+					continue
+				}
+				out := propagation.HeaderCarrier(http.Header{})
+				p.Inject(ctx, out)
+				tid, sid := sc.TraceID(), sc.SpanID()
+				if !bytes.Equal(tid[:], ref.TID) || !bytes.Equal(sid[:], ref.SID) || byte(sc.TraceFlags()) != ref.Flags ||
+					sc.IsRemote() != ref.Remote || sc.TraceState().String() != ref.TSStr ||
+					out.Get("traceparent") != ref.ReTP || out.Get("tracestate") != ref.ReTS {
+					w.Violation(name+": extraction / re-injection differs from the MapCarrier result", desc)
+				}
+			}
+			w.Tally("carriers")
+		})
+	}
 	if err := w.Flush(); err != nil {
 		fmt.Fprintln(os.Stderr, err)
 		os.Exit(2)
